@@ -248,8 +248,11 @@ theorem inline_segments_in_range_and_ordered : type_of% @GM.Props.Inlines.text_s
 
 /-! ### the block phase (GM.Model.Blocks, tied by the `blocks` correspondence) -/
 
-/-- No block parser ever moves the reader's line end backwards (an ingredient of "a block's lines are increasing"; the
-    full statement for every block of every source is `GM.Props.Blocks.LinesInRange`, stated and not yet proved). -/
+/-- (c) for block lines, range clause, for EVERY byte string: every line segment of every block the block phase
+    builds satisfies `0 ≤ start ≤ stop ≤ len(source)` and `padding ≥ 0`. (The order clause "a block's lines increase"
+    is `GM.Props.Blocks.LinesInRange`, stated, evaluated on every `blocks` case, not yet proved.) -/
+theorem block_lines_in_range : type_of% @GM.Props.Blocks.lines_in_range := @GM.Props.Blocks.lines_in_range
+/-- No block parser ever moves the reader's line end backwards (an ingredient of "a block's lines are increasing"). -/
 theorem block_parsers_keep_line_end : type_of% @GM.Props.Blocks.open_keeps_stop := @GM.Props.Blocks.open_keeps_stop
 /-- Only blockquote, list and list item can have children: the seven leaf block parsers always answer NoChildren. -/
 theorem only_containers_have_children : type_of% @GM.Props.Blocks.only_containers_have_children := @GM.Props.Blocks.only_containers_have_children
